@@ -706,7 +706,7 @@ def collinearity_scale_free(repo: Repo, prop: str = PROP, rule: str = "C08.COLLI
     """'... for radii over three decades': whether an arc is written at all must not depend on the size of the model."""
     from ..dims import scale_free_comparison_rule
 
-    return scale_free_comparison_rule(repo, prop, rule, ["items.edges.arcs.arc_base.ArcEdgeBase.is_valid"])
+    return scale_free_comparison_rule(repo, prop, rule, ["items.edges.arcs.arc_base.ArcEdgeBase.is_valid", "util.functions.arc_length_3point"], floor=2)
 
 
 collinearity_scale_free.rule_id = "C08.COLLINEARITY-SCALE-FREE"
